@@ -56,6 +56,7 @@ def gen_and_run(tier, seed):
     b4q = mc.exhaustive(4, ["mixin", "light"], False, rng, rich=False)
     rng.shuffle(b4q)
     advs += [dict(c, adv=["always_equal", "container", "ordering"][i % 3]) for i, c in enumerate(b4q[:3000])]
+    advs += mc.fresh_cases(mc.CLASSES)
     fobs = mc.run_impl(fc + pers + advs, PROP)
     cases = base + fc + pers + advs
     obs = obs0 + fobs
